@@ -38,20 +38,21 @@ LEVEL_TEXT = (
     "The clause 'completed against the final essential state' is FALSE of the code: completed_against_final_partial under "
     "the exact guard + absorbed_change_witness as its negation (open finding C03-F4); 'no records / last-handled = essence' "
     "is false for objects the framework is blind to: blind_quiescent + blind_witness (open finding C03-F2). Repaired and kept "
-    "as regressions: C03-F1 (2ae938f), C03-F3 (d1b2dc4), C03-F5 (1c8f3dd). C03-F6 (name-addressed patches after delete+recreate) "
+    "as regressions: C03-F1 (2ae938f, skip_path_purges), C03-F3 (d1b2dc4, final_state), C03-F5 (1c8f3dd), C03-F7 (7224f57, open_pass_leaves_event; "
+    "`Env.constPatch` models a patch that changes nothing). C03-F6 (name-addressed patches after delete+recreate) "
     "lies in C08's part and is found by the oracle only. The model is hand-written and tied per turn to whole-operator "
     "simulations incl. finalizer turns and deletion tails; daemons (C09), the consistency wait (C07), patch conflicts (C08) and "
     "foreign finalizer edits (C06) are outside this model.")
 THEOREMS = [("Kopf.Props.C03", "Kopf.C03." + n) for n in [
     "terminates", "final_state", "final_state_deleted", "converges", "deletion_converges",
     "all_selected_completed", "completed_against_final_partial", "absorbed_change_witness",
-    "invoked_once_after_last_change", "restart_safe", "accumulated_change", "blind_quiescent", "blind_witness",
+    "open_pass_leaves_event", "invoked_once_after_last_change", "restart_safe", "accumulated_change", "blind_quiescent", "blind_witness",
     "skip_path_purges", "terminates_stable", "filtersStable_of_essence"]]
 RULE = ("seeded histories of one object: 1-4 change handlers (create/update/resume/delete, label filters, retries/timeout/backoff/"
         "errors, scripts with finitely many temporary/arbitrary/permanent failures then ok, three lifecycles), 0-6 external ops "
         "(spec edits, reverts, label flips, annotation edits, status-only edits, bursts, delete(+recreate), graceful stop / kill / kill right before or "
         "right after the server applied the next PATCH, each with a downtime with or without edits, lost requests/responses), echo "
-        "delays, objects existing before the first start, objects whose essence is empty ({} / empty spec / status only); then a silent tail long enough for every scripted failure. One case = one "
+        "delays, on.event handlers returning a constant (8 %), handlers using patch.fns with an external edit slipped between merge-patch and JSON-patch (10 %), objects existing before the first start, objects whose essence is empty ({} / empty spec / status only); then a silent tail long enough for every scripted failure. One case = one "
         "history; distinct & non-trivial = distinct (outstanding change, restart kinds, tail pass shapes, final classification) with "
         "at least one handler-reason pass or restart")
 TRUSTED = ["harness/sim (virtual-time loop, fake API server, scripted handlers, attribute-level observation of kopf)",
@@ -510,8 +511,8 @@ def abstract_tail(sc: dict, tr: dict, cap: int) -> tuple[list | None, Any]:
         return None, "deleted-at-once"      # no finalizer held it: the deletion itself ends the history
     if float(sc.get("settings", {}).get("watching.server_timeout", 4096.0)) < f.end:
         return None, "relisting-in-tail"
-    if any(h["kind"] == "event" for h in sc["handlers"]):
-        return None, "event-handler-results"   # their results add a (no-op) patch to every cycle: outside the model (C03-F7)
+    if any(isinstance(a, list) and a and a[0] == "fn" for h in sc["handlers"] for a in list(h.get("script", [])) + [h.get("default")]):
+        return None, "user-patch-fns"          # JSON-patch transformations of the handlers: C08's transport, outside the model
     if f.cross_uid:
         return None, "cross-uid-write"      # not silent: a write of the deleted predecessor's cycle landed on this object
     if any(x != FINALIZER for x in (f.last_body["metadata"].get("finalizers") or [])):
@@ -635,6 +636,8 @@ def abstract_tail(sc: dict, tr: dict, cap: int) -> tuple[list | None, Any]:
         "marked": bool(c0["body"]["metadata"].get("deletionTimestamp")),
         "blocked": FINALIZER in (c0["body"]["metadata"].get("finalizers") or []),
         "changeReq": change_req, "foreignFins": False,
+        "constPatch": any(h["kind"] == "event" and isinstance(h.get("default"), list) and len(h["default"]) > 1
+                          for h in sc["handlers"]),
         "prematch": not blind, "now": passes[0]["now"],
         "lat": 1 + round(float((sc.get("echo_delay") or {}).get("default", 0.0)) * 64), "cap": cap,
         "fuel": n + 8, "universe": owned}]
@@ -698,6 +701,16 @@ def gen_scenario(rng: Any, i: int) -> dict:
         if rng.random() < 0.2:
             opts["labels"] = {"l": "1"}
         handlers.append({"kind": "delete", "id": f"d{len(handlers)}", "opts": opts, "script": script, "default": "ok", "record_body": True})
+    if rng.random() < 0.08:
+        # an on.event handler returning a constant: every cycle's patch carries content that changes nothing
+        handlers.append({"kind": "event", "id": f"e{len(handlers)}", "script": [], "default": ["ok", {"v": 1}]})
+    user_fns = rng.random() < 0.1
+    if user_fns:
+        # a handler that uses patch.fns (JSON-patch transformations); an external edit will land between the merge-patch
+        # and the JSON-patch of one of its cycles (422: the fns are carried to the next cycle), then more edits follow
+        k = rng.choice(["update", "update", "create"])
+        handlers.append({"kind": k, "id": f"{k[0]}{len(handlers)}", "opts": {}, "script": [], "default": ["fn", "x", "ok"],
+                         "record_body": True})
     echo = rng.choice([0.0, 0.0, 0.0, 0.015625, 0.0625, 0.5])
     body0 = {"spec": {"x": 0}, "metadata": {"labels": {"l": rng.choice(["0", "1", "1"])}}}
     empty = rng.random() < 0.14
@@ -784,6 +797,14 @@ def gen_scenario(rng: Any, i: int) -> dict:
                     tl.append([t, "edit", "a", {"spec": {"x": x}}])
             t += rng.choice([0.5, 2.0, 5.0, 20.0])
             tl.append([t, "start"])
+    if user_fns and not empty:
+        sc["slips"] = [{"method": "PATCH", "ctype": "json-patch", "nth": rng.choice([1, 1, 2, 3]),
+                        "op": ["edit", "a", {"spec": {"x": 1000 + i % 7}}]}]
+        for _u in range(rng.choice([2, 3])):       # make sure the handler runs, conflicts, and is needed again later
+            t += rng.choice([1.0, 3.5, 6.0])
+            x = max(xs) + 1
+            xs.append(x)
+            tl.append([t, "edit", "a", {"spec": {"x": x}}])
     if deletion:
         t += step()
         tl.append([t, "delete", "a"])
